@@ -69,10 +69,10 @@ StepBound == ECheck("StepBound", status # "idle" => Len(evlog) <= 2 * Cardinalit
 Terminates == (status = "running") ~> ETerminal
 
 Inv_C10 == ECheck("Inv_C10", status # "idle" =>
-               /\ C10_AtMostOnce(calls) /\ C10_OnlyExisting(work, calls)
-               /\ C10_ExactlyOnce(work, status, calls)
-               /\ C10_OrderFree(work, status, Data)
-               /\ C10_SameObject(work, status, Ids))
+               /\ C10_AtMostOnce(calls) /\ C10_OnlyExisting(ExpandRec(work), calls)
+               /\ C10_ExactlyOnce(ExpandRec(work), status, calls)
+               /\ C10_OrderFree(ExpandRec(work), status, Data)
+               /\ C10_SameObject(ExpandRec(work), status, Ids))
 
 Inv_C11 == ECheck("Inv_C11", status = "done" =>
                /\ C11_Mirror(work, status, Data)
